@@ -176,6 +176,21 @@ def main():
             continue
         e_ = (r_ - R_[0]) % N
         fam.append(('key x in [n,p)', Pk, e_, r_, s_, True))
+    # extreme scalars in the double multiplication R = [s]G + [t]P (taken by contract from C14 in the symbolic part): valid
+    # (e, r, s) built from the verification equation with t or s tiny, sparse, or next to n; the standard accepts all of them
+    dsp = rng.randrange(1, N - 1)
+    Psp = ref.mul(dsp)
+    specials = [1, 2, 3, 5, 17, 255, 4097, 16383, 1 << 14, 1 << 15, (1 << 28) + 1, 1 << 128, 1 << 255, N - 1, N - 2, N - 3]
+    for which in ('t', 's'):
+        for sv_ in specials:
+            other = rng.randrange(1, N)
+            t_, s_ = (sv_, other) if which == 't' else (other, sv_)
+            R_ = ref.add(ref.mul(s_), ref.mul(t_, Psp))
+            r_ = (t_ - s_) % N
+            if R_ is None or r_ == 0 or not (1 <= s_ < N):
+                continue
+            e_ = (r_ - R_[0]) % N
+            fam.append(('special %s = %s' % (which, hex(sv_) if sv_ < (1 << 40) else 'large'), Psp, e_, r_, s_, True))
     rows = []
     for name, pub, e_, r_, s_, want in fam:
         want = ref.verify(pub[0], pub[1], e_, r_, s_) if want is None else want
